@@ -77,3 +77,43 @@ def _set_whole(arr: ix.IArr, f):
         def cell(idx):
             return f(tuple(idx))
     arr.store.cell = cell
+
+
+class ListInv(LoopRule):
+    """Invariant for loops that only append to Python lists: after k iterations list L has exactly k
+    entries and entry j is entry_L(j) (closed form, independent of k).  Other managed variables can be
+    given as scalars (closed forms) like in FunctionalInv."""
+
+    def __init__(self, lists, scalars=None, tag=""):
+        self.lists = lists            # name -> f(interp, frame) returning entry function j -> value
+        self.scalars = scalars or {}
+        self.modifies = tuple(lists) + tuple(self.scalars)
+        self.tag = tag
+
+    def establish(self, it, fr, start):
+        c = cur()
+        for name in self.lists:
+            v = fr.vars.get(name)
+            ok = isinstance(v, list) and len(v) == 0 and (isinstance(start, int) and start == 0)
+            c.require("inv.establish", ok, f"{name} is an empty list at loop entry", key=f"{self.tag}inv.establish.{name}")
+        for name, closed in self.scalars.items():
+            c.require("inv.establish", ix.scal_eq(fr.vars.get(name), closed(it, fr, start)), f"{name} closed form at entry", key=f"{self.tag}inv.establish.{name}")
+
+    def havoc(self, it, fr, k):
+        from .values import SymList
+        for name, mk in self.lists.items():
+            fr.vars[name] = SymList(k, name, entry=mk(it, fr))
+        for name, closed in self.scalars.items():
+            fr.vars[name] = closed(it, fr, k)
+
+    def preserve(self, it, fr, k):
+        from .values import SymList
+        c = cur()
+        for name, mk in self.lists.items():
+            v = fr.vars.get(name)
+            ok = isinstance(v, SymList) and len(v.items) == 1
+            c.require("inv.preserve", ok, f"exactly one append to {name} per iteration", key=f"{self.tag}inv.preserve.{name}.one_append")
+            if ok:
+                c.require("inv.preserve", ix.scal_eq(v.items[0], mk(it, fr)(k)), f"{name}[k] equals its closed form", key=f"{self.tag}inv.preserve.{name}.value")
+        for name, closed in self.scalars.items():
+            c.require("inv.preserve", ix.scal_eq(fr.vars.get(name), closed(it, fr, k + 1)), f"{name} closed form", key=f"{self.tag}inv.preserve.{name}")
